@@ -164,6 +164,8 @@ def rcRecoverSingleEvent : List Instr := [
 
 def refreshAssignments : List Instr := [
   ⟨0, "func", "func() error"⟩,
+  ⟨0, "stmt", "rc.partitionAssignmentLock.Lock()"⟩,
+  ⟨0, "defer", "rc.partitionAssignmentLock.Unlock()"⟩,
   ⟨0, "assign", "recoveryCandidates := make(map[int32]partitionRecoveryState)"⟩,
   ⟨0, "range", "rc.assignedPartitions"⟩,
   ⟨1, "assign", "recoveryRequest := rc.tracker.GetRecoveryRequest(partition.Partition)"⟩,
@@ -176,8 +178,6 @@ def refreshAssignments : List Instr := [
   ⟨2, "assign", "recoveryState := partitionRecoveryState{ partition: recoveryPartition, fromOffset: fromOffset, toOffset: recoveryRequest.ToOffset, }"⟩,
   ⟨2, "assign", "recoveryCandidates[partition.Partition] = recoveryState"⟩,
   ⟨0, "if", "rc.partitionAssignmentsChanged(recoveryCandidates)"⟩,
-  ⟨1, "stmt", "rc.partitionAssignmentLock.Lock()"⟩,
-  ⟨1, "defer", "rc.partitionAssignmentLock.Unlock()"⟩,
   ⟨1, "assign", "err := rc.consumer.Unassign()"⟩,
   ⟨1, "if", "err != nil"⟩,
   ⟨1, "for", "len(rc.consumer.Events()) > 0"⟩,
@@ -214,6 +214,8 @@ def setActivePartitionMap : List Instr := [
 
 def setAssignedPartitions : List Instr := [
   ⟨0, "func", "func(partitions []kafka.TopicPartition)"⟩,
+  ⟨0, "stmt", "rc.partitionAssignmentLock.Lock()"⟩,
+  ⟨0, "defer", "rc.partitionAssignmentLock.Unlock()"⟩,
   ⟨0, "assign", "rc.assignedPartitions = partitions"⟩
 ]
 
@@ -366,11 +368,13 @@ def receiveRequest : List Instr := [
 ]
 
 def tyRecoveryRequest : List Instr := [
-  ⟨0, "type", "struct { PartitionID int32 `json:\"partition_id\"` FromOffset int64 `json:\"from_offset\"` ToOffset int64 `json:\"to_offset\"` Created time.Time `json:\"created\"` }"⟩
+  ⟨0, "type", "struct { PartitionID int32 `json:\"partition_id\"` FromOffset int64 `json:\"from_offset\"` ToOffset int64 `json:\"to_offset\"` Created time.Time `json:\"created\"` }"⟩,
+  ⟨0, "methods", ""⟩
 ]
 
 def tyRecoveryRequests : List Instr := [
-  ⟨0, "type", "struct { Requests []*RecoveryRequest `json:\"recovery_requests\"` }"⟩
+  ⟨0, "type", "struct { Requests []*RecoveryRequest `json:\"recovery_requests\"` }"⟩,
+  ⟨0, "methods", ""⟩
 ]
 
 def trackerMax : List Instr := [
@@ -497,11 +501,13 @@ def msgUniqueKey : List Instr := [
 ]
 
 def tyWireMessage : List Instr := [
-  ⟨0, "type", "struct { Message Message `json:\"message\"` Updated time.Time `json:\"updated\"` Acknowledged bool `json:\"ack\"` }"⟩
+  ⟨0, "type", "struct { Message Message `json:\"message\"` Updated time.Time `json:\"updated\"` Acknowledged bool `json:\"ack\"` }"⟩,
+  ⟨0, "methods", ""⟩
 ]
 
 def tyMessage : List Instr := [
-  ⟨0, "type", "struct { MessageType string `json:\"messagetype\"` Key string `json:\"key\"` Payload []byte `json:\"payload\"` }"⟩
+  ⟨0, "type", "struct { MessageType string `json:\"messagetype\"` Key string `json:\"key\"` Payload []byte `json:\"payload\"` }"⟩,
+  ⟨0, "methods", ""⟩
 ]
 
 def exDeliverMessage : List Instr := [
@@ -857,11 +863,13 @@ def newFBError : List Instr := [
 ]
 
 def tyEventError : List Instr := [
-  ⟨0, "type", "struct { Timestamp time.Time `json:\"timestamp\"` Event interface{} `json:\"event\"` Err error `json:\"error\"` }"⟩
+  ⟨0, "type", "struct { Timestamp time.Time `json:\"timestamp\"` Event interface{} `json:\"event\"` Err error `json:\"error\"` }"⟩,
+  ⟨0, "methods", "MarshalJSON"⟩
 ]
 
 def tyFBError : List Instr := [
-  ⟨0, "type", "struct { Code string `json:\"code\"` Msg string `json:\"message\"` ErrorInfo interface{} `json:\"errorinfo,omitempty\"` }"⟩
+  ⟨0, "type", "struct { Code string `json:\"code\"` Msg string `json:\"message\"` ErrorInfo interface{} `json:\"errorinfo,omitempty\"` }"⟩,
+  ⟨0, "methods", "Error"⟩
 ]
 
 def applyLibrdkafkaConf : List Instr := [
@@ -1053,6 +1061,47 @@ def invokeProcessorFanout : List Instr := [
 def newAsyncEvent : List Instr := [
   ⟨0, "func", "func(event *Event, errFunc func(error), eventFunc func(*AsyncEvent), filterFunc func()) *AsyncEvent"⟩,
   ⟨0, "return", "&AsyncEvent{ Event: event, ReturnError: errFunc, ReturnEvent: eventFunc, ReturnFiltered: filterFunc, }"⟩
+]
+
+def registerNodeType : List Instr := [
+  ⟨0, "func", "func(nodeType string, factory func() Node, consumes reflect.Type, produces reflect.Type)"⟩,
+  ⟨0, "assign", "reg := &Registration{ factory: factory, Consumes: consumes, Produces: produces, }"⟩,
+  ⟨0, "assign", "r.nodeTypes[nodeType] = reg"⟩
+]
+
+def registerSourceType : List Instr := [
+  ⟨0, "func", "func(sourceType string, factory func() Source, produces reflect.Type)"⟩,
+  ⟨0, "assign", "reg := &SourceRegistration{ factory: factory, Produces: produces, }"⟩,
+  ⟨0, "assign", "r.sourceTypes[sourceType] = reg"⟩
+]
+
+def getNodeRegistration : List Instr := [
+  ⟨0, "func", "func(nodeType string) *Registration"⟩,
+  ⟨0, "return", "r.nodeTypes[nodeType]"⟩
+]
+
+def getSourceRegistration : List Instr := [
+  ⟨0, "func", "func(sourceType string) *SourceRegistration"⟩,
+  ⟨0, "return", "r.sourceTypes[sourceType]"⟩
+]
+
+def metricsInit : List Instr := [
+  ⟨0, "func", "func(appMetricsPrefix string)"⟩,
+  ⟨0, "stmt", "once.Do(func() { singleton = &Metrics{ AppMetricsPrefix: appMetricsPrefix, } singleton.registerSourceMetrics() singleton.registerNodeMetrics() singleton.registerMessageMetrics() })"⟩
+]
+
+def metricsGet : List Instr := [
+  ⟨0, "func", "func() *Metrics"⟩,
+  ⟨0, "if", "singleton == nil"⟩,
+  ⟨1, "stmt", "panic(\"illegal attempt to access metrics before initialization, be sure to call Init()\")"⟩,
+  ⟨0, "return", "singleton"⟩
+]
+
+def metricsNode : List Instr := [
+  ⟨0, "func", "func() NodeMetrics"⟩,
+  ⟨0, "if", "singleton == nil"⟩,
+  ⟨1, "stmt", "panic(\"illegal attempt to access metrics before initialization, be sure to call Init()\")"⟩,
+  ⟨0, "return", "singleton.nodeMetrics"⟩
 ]
 
 def instantiateNode : List Instr := [
